@@ -1419,10 +1419,17 @@ def _mp_visit_worker(ready_queue, done_event, callback):
     from queue import Empty
 
     while True:
+        # Sample the shutdown flag *before* waiting for an item. The producer
+        # only sets it after everything has been flushed into the queue, so if
+        # it was already set when we started waiting, a timeout really means
+        # that there is no work left. Checking it only after the timeout is
+        # racy: the last items may be flushed, and the flag set, in between.
+        finishing = done_event.is_set()
+
         try:
             args = ready_queue.get(True, timeout=1)
         except Empty:
-            if done_event.is_set():
+            if finishing:
                 break
             continue
 
